@@ -3,18 +3,19 @@ import CssVerif.Model.Out
 # K4 `Out`, part 2 — properties, declaration blocks, rules, the sheet (`cssutils/serialize.py`)
 
 The `do_*` methods above the value level, statement by statement, with the content filters at their points of use.
-Python operations that can raise are partial here (`Except Err`):
-* `rule._keyword` is only set by the `atkeyword` setter, which `@media`, `@page`, `@font-face`, `@variables` never call
-  (`cssrule.py:75-80`) → `AttributeError` when `defaultAtKeyword` is off (`serialize.py:344`);
+Python operations that can raise are partial here (`Except Err`). One is left:
 * `stacks.pop()` in `do_CSSUnknownRule` on a CHAR `}` without an open block (`serialize.py:734`) → `IndexError`
-  (not reachable for a well-formed rule since 6124270: only CHAR braces open and close blocks);
-* `text.split('')` in `_linenumnbers` when `lineSeparator` is empty (`serialize.py:373`) → `ValueError`.
+  (not reachable for a well-formed rule since 6124270: only CHAR braces open and close blocks).
+Two others are gone with the repaired code, and with them the constructors of `Err`:
+`rule._keyword` (only set by the `atkeyword` setter, which `@media`, `@page`, `@font-face`, `@variables` never call)
+is now read with the normalised keyword as fallback (`_atkeyword`), and `_linenumnbers` no longer splits on an empty
+`lineSeparator`.
 -/
 namespace CssVerif.Out
 open CssVerif.Proto (Cps)
 
 inductive Err where
-  | attributeError | indexError | valueError
+  | indexError
   deriving DecidableEq, Repr
 
 /-! ## Property (`do_Property`, `serialize.py:970-1017`) -/
@@ -164,7 +165,7 @@ def declHere (p : Prefs) (lv : Nat) (sep : Cps) (omitThis : Bool) : DItem → Ex
     pure (if !t.isEmpty then (if omitThis then [t, sep] else [t, [59], sep]) else [])
   | .urule r => match doURule p lv r with
     | .error e => .error e
-    | .ok t => pure [t, sep]
+    | .ok t => pure (if !t.isEmpty then [t, sep] else [])   -- empty when `keepUnknownAtRules` is off
   | .other s => pure [s, sep]
 
 /-- the loop over `seq`; `rest.isEmpty` is `i == len(seq) - 1` -/
@@ -228,12 +229,10 @@ inductive Rule where
   | unknown (r : URule)
   | variables (wf : Bool) (atk : Cps) (kw : Option Cps) (items : List Item) (vars : List VItem)
 
-/-- `_atkeyword` (`:339-344`) -/
+/-- `_atkeyword` (`:339-345`): `getattr(rule, '_keyword', rule.atkeyword)` when the literal keyword is asked for;
+`kw` is `rule._keyword` (`none` = the attribute does not exist). Total since the repair. -/
 def atKeyword (p : Prefs) (atk : Cps) (kw : Option Cps) : Except Err Cps :=
-  if p.defaultAtKeyword then pure atk
-  else match kw with
-    | some k => pure k
-    | none => throw .attributeError
+  pure (if p.defaultAtKeyword then atk else kw.getD atk)
 
 /-- `for item in rule.seq: out.append(item.value, item.type)` -/
 def seqCalls (its : List EItem) : List Call := its.map fun it => { v := it.2.aval, ty := it.1 }
@@ -437,14 +436,12 @@ def countOcc (sep s : Cps) : Nat := (splitOn sep s).length - 1
 
 /-- `_linenumnbers` (`:369-376`) -/
 def lineNumbers (p : Prefs) (text : Cps) : Except Err Cps :=
-  if p.lineNumbers then
-    if p.lineSeparator.isEmpty then throw .valueError
-    else
-      let pad := (natDec (countOcc p.lineSeparator text + 1)).length
-      let lines := splitOn p.lineSeparator text
-      pure (joinWith p.lineSeparator (lines.zipIdx.map fun l =>
-        let d := natDec (l.2 + 1)
-        rep (pad - d.length) [32] ++ d ++ [58, 32] ++ l.1))
+  if p.lineNumbers && !p.lineSeparator.isEmpty then
+    let pad := (natDec (countOcc p.lineSeparator text + 1)).length
+    let lines := splitOn p.lineSeparator text
+    pure (joinWith p.lineSeparator (lines.zipIdx.map fun l =>
+      let d := natDec (l.2 + 1)
+      rep (pad - d.length) [32] ++ d ++ [58, 32] ++ l.1))
   else pure text
 
 /-- the text that `do_CSSStyleSheet` encodes -/
